@@ -3,14 +3,18 @@
 // Drives PolynomialRootFinder::findRoots (six overloads x {float,double}) over generated
 // polynomials and judges every returned root set with harness-side oracles evaluated in long double:
 //   count     every returned root is finite (the library pre-fills NaN for roots it did not find);
-//   residual  |p(z)| <= K*(2n+2)*eps_T * sum|a_k||z|^k   (backward-error measure: independent of the
-//             root's conditioning, so it is also the multiplicity-aware test);
+//   residual  |p(z_i)| <= K*(2n+2)*eps_T*G_i * sum|a_k||z_i|^k  (backward error: independent of the root's conditioning, so it
+//             is also the multiplicity-aware test). K = 1e3 for the closed-form quadratics, 1e5 (double) / 3e3 (float) for the
+//             Jenkins-Traub routes (calibrated: worst benign case 3e2 / 3e2 over 3e5 polynomials). G_i is the a-priori growth
+//             of forward deflation, computed from the order in which the roots are returned; roots with G_i > 1e6 are counted;
 //   vieta     (n<=8) coefficients of a_0*prod(x-z_i) match a_k within K*(2n+2)*eps*|a_0|*e_k(|z|);
-//   rootmatch polynomials built from known, well separated roots: every known root has a computed
-//             partner within K*(2n+2)*eps*sum|a_k||z|^k/|p'(z)| (first-order perturbation bound);
-//             judged only where that bound is < separation/10 (guard "ill-conditioned-root");
+//   rootmatch polynomials built from known, well separated roots: every known root has a computed partner within
+//             K*(2n+2)*eps*sum|a_k||z|^k/|p'(z)| (first-order perturbation bound); judged only where that bound is
+//             < separation/10 (guard "ill-conditioned-root");
 //   conj      real coefficients: every non-real root has a conjugate partner within 64*eps*|z|;
 //   zero-leading  leading coefficient exactly zero => ZeroLeadingCoefficient.
+// Attribution: four input classes in which the shipped algorithms were measured to lose accuracy are judged by the residual
+// oracle only and keyed separately ("residual-hard:<family>:<class>", see judge()); everything else is the benign tier.
 // Legal-client preconditions: non-zero finite leading coefficient, all coefficients finite and (for
 // float) inside the normal range; the caller sizes the root container to the degree.
 // A thrown "Failure to find any roots" is the documented non-convergence outcome: counted, not judged.
